@@ -643,8 +643,10 @@ Qed.
 Lemma license_roundtrip v : valid_license v = true -> exists s, license_text v = Some s /\ license_value (license_of_str s) = v.
 Proof.
   destruct v as [| | | | |l|]; try discriminate. destruct l as [|tag [|a [|b [|z l']]]]; try discriminate; cbn [valid_license]; intros H.
-  - apply andb_true_iff in H. destruct H as [Ht Ha]. apply str_eqb_eq in Ht. subst tag.
-    exists a. split; [reflexivity|]. unfold license_of_str. rewrite split_once_lf_eq, (split_once_on_none LFc a Ha). reflexivity.
+  - apply orb_true_iff in H. destruct H as [H|Ht].
+    + apply andb_true_iff in H. destruct H as [Ht Ha]. apply str_eqb_eq in Ht. subst tag.
+      exists a. split; [reflexivity|]. unfold license_of_str. rewrite split_once_lf_eq, (split_once_on_none LFc a Ha). reflexivity.
+    + apply str_eqb_eq in Ht. subst tag. exists (l_lf ++ a). split; [reflexivity|]. reflexivity.
   - apply andb_true_iff in H. destruct H as [H Hn]. apply andb_true_iff in H. destruct H as [Ht Hne]. apply str_eqb_eq in Ht. subst tag.
     exists (a ++ l_lf ++ b). split; [reflexivity|]. unfold license_of_str. rewrite split_once_lf_eq.
     change (a ++ l_lf ++ b) with (a ++ LFc :: b). rewrite (split_once_on_first LFc a b Hn). destruct a; [discriminate|reflexivity].
@@ -677,7 +679,12 @@ Proof.
     assert (r0 = r) by (destruct r, r0; try discriminate; reflexivity). subst r0.
     exists (join l_lf ls). split; [cbn [enc]; rewrite E1; reflexivity|]. cbn [decode]. rewrite E2. destruct dflt; reflexivity.
   - (* yes flag / yes-no *) destruct v; try discriminate. eexists. split; [reflexivity|]. destruct b; reflexivity.
+  - (* rules-requires-root, as shipped *) destruct v; try discriminate. eexists. split; [reflexivity|]. destruct b; reflexivity.
   - (* rules-requires-root *) destruct v; try discriminate. eexists. split; [reflexivity|]. destruct b; reflexivity.
+  - (* relationship fields: the tolerant reader gives back the text *)
+    destruct t; try discriminate. destruct v; try discriminate.
+    exists s. split; [reflexivity|]. cbn [decode]. unfold RelParse.parse_relaxed.
+    destruct (RelParseP.rparse_total s true) as (tr & n & E & Ht). rewrite E, Ht. reflexivity.
   - (* environment *) destruct v; try discriminate. cbn [valid_plain] in Hv. destruct (env_roundtrip l Hv) as (ls & E1 & E2).
     exists (concat ls). split; [cbn [enc]; rewrite E1; reflexivity|]. cbn [decode]. rewrite E2. reflexivity.
   - (* origin *) cbn [valid_plain] in Hv. destruct (origin_roundtrip v Hv) as (raw & E1 & E2).
@@ -1587,3 +1594,43 @@ Proof.
   destruct (ok_getter_field e g Hgt Ho) as (F & Rd & Nm). exists e. split; [exact He|]. split; [exact F|]. split; [exact Rd|]. split; [exact Nm|].
   intros c arg cs. rewrite (getter_refines TI pitems TI_refines). apply getter_LI_field; [unfold row_field; rewrite Ho, F; reflexivity|rewrite Ho; reflexivity].
 Qed.
+
+(* ================================================================== 10. audit follow-up *)
+(* relationship fields are read with the tolerant reader: total, every text is given back *)
+Theorem reading_relaxed c s : decode c CRelaxed (Some s) = Ok (VSome (VStr s)).
+Proof.
+  cbn [decode]. unfold RelParse.parse_relaxed. destruct (RelParseP.rparse_total s true) as (tr & n & E & Ht). rewrite E, Ht. reflexivity.
+Qed.
+
+(* Rules-Requires-Root: never panics; "no" = false, "yes" and "binary-targets" = true (any case), a
+   keyword list = None *)
+Theorem reading_root_flag c raw :
+  decode c CRootFlag raw =
+  Ok (match raw with
+      | None => VNone
+      | Some s => if str_eqb (to_lower s) l_yes || str_eqb (to_lower s) l_binary_targets then VSome (VBool true)
+                  else if str_eqb (to_lower s) l_no then VSome (VBool false) else VNone
+      end).
+Proof. reflexivity. Qed.
+
+(* FINDING c15-dep3-long-description-without-description: DEP-3 set_long_description on a header
+   that has neither Description nor Subject makes the text the whole field, so its first line becomes
+   the description.  The class is "no description field before the call". *)
+Definition Known_long_description_without_description (p : list (str * str)) : Prop := desc_raw p = None.
+Theorem long_description_outside_known_class c p l : ~ Known_long_description_without_description p -> both_desc p = false ->
+  let p' := dep3_set_long_description LI false p l in
+  decode c CRestLines (desc_raw p') = Ok (VSome (VStr l)) /\
+  decode c CFirstLine (desc_raw p') = decode c CFirstLine (desc_raw p) /\
+  strip [k_Description; k_Subject] p' = strip [k_Description; k_Subject] p.
+Proof.
+  intros Hk Hb. unfold Known_long_description_without_description in Hk. destruct (desc_raw p) as [old|] eqn:E; [|congruence].
+  pose proof (dep3_set_long_description_spec c p l old E Hb) as H. cbv zeta in *. rewrite E in H. exact H.
+Qed.
+Lemma long_description_known_class_witness :
+  let c := mk_ctx id_xparse [] in
+  let p := @nil (str * str) in
+  let l := [97; 10; 98]%N in                                   (* "a\nb" *)
+  Known_long_description_without_description p /\
+  decode c CRestLines (desc_raw (dep3_set_long_description LI false p l)) = Ok (VSome (VStr [98%N])) /\
+  decode c CFirstLine (desc_raw (dep3_set_long_description LI false p l)) = Ok (VSome (VStr [97%N])).
+Proof. vm_compute. repeat split. Qed.
